@@ -174,6 +174,23 @@ def h_typing() -> Union[bool, str]:
     return differential(q, sigs, env)
 
 
+SEGMENT_TEXTS = [".a", "['a']", '["b"]', "[0]", "[-1]", "..a", "..[0]", "..['a']", "[*]", ".*", "..*", "[0:1]", "[:]", "['a','b']", "[0,1]", "[?@.b]", "[0,'a']", " .a", " [0]"]
+SINGULAR_CONTEXTS = ["$[?{} == 1]", "$[?1 < {}]", "$[?{} != {}]", "$[?length({}) == 1]", "$[?match({}, 'a')]", "$[?count({}) == 1]", "$[?{}]", "$[?!{}]", "$[?value({}) == 1]", "$[?{} == 1 && @.x]"]
+
+
+def h_singular() -> Union[bool, str]:
+    """Only singular queries are comparable / acceptable for a ValueType parameter: the embedded query is built from symbolic
+    choices of root and segments (up to 3), the context is a symbolic choice (fork-enumerated)."""
+    root = "@" if hcommon.sym_choice("root", 2) == 0 else "$"
+    nseg = hcommon.sym_choice("nseg", P.get("maxseg", 2) + 1)
+    q = root
+    for i in range(nseg):
+        q += SEGMENT_TEXTS[hcommon.sym_choice("seg%d" % i, len(SEGMENT_TEXTS))]
+    ctx = SINGULAR_CONTEXTS[P["context"]]
+    text = ctx.replace("{}", q)
+    return differential(text, dict(BUILTIN_SIGNATURES), hcommon.model_env())
+
+
 def h_names() -> Union[bool, str]:
     """Function names in call position are symbolic characters: unknown names must raise, known ones are typed by their signature."""
     sigs = dict(BUILTIN_SIGNATURES)
@@ -262,6 +279,8 @@ def obligations(tier: str):
         if k == 3 and tier == "quick":
             continue
         obls.append({"id": "range%02d.k%d" % (i, k), "func": "h_literal_range", "params": {"prefix": pre, "suffix": suf, "k": k}, "timeout": t})
+    for ci in range(len(SINGULAR_CONTEXTS)):
+        obls.append({"id": "singular.ctx%d" % ci, "func": "h_singular", "params": {"context": ci, "maxseg": 2 if tier == "quick" else 3}, "timeout": t if tier == "quick" else 3000})
     for form in (1, 2, 3, 4, 5, 6, 7, 8):
         obls.append({"id": "custom_range.form%d" % form, "func": "h_custom_range", "params": {"form": form}, "timeout": t})
     obls.append({"id": "smt.b2_guards", "kind": "smt", "func": "b2_guards", "timeout": 120})
